@@ -32,7 +32,7 @@ ENTRY = dict(
         "program version data -> message -> data": "theorem + correspondence",
         "encryption kinds accepted by the decoder are exactly 0..4": "table",
         "equality of used frame objects (known finding F5 stated exactly)": "theorem (C03Object) + correspondence",
-        "object -> FrameWriter -> wire -> FrameReader for whole frame sequences": "theorem (written_stream_read_back)",
+        "object -> FrameWriter -> wire -> FrameReader for whole frame sequences": "theorem (written_stream_read_back) + correspondence (2-6 frames serialised one after the other, frames for other devices -- bodies with start delimiters, header-shaped runs, embedded whole frames -- in between, read back with the real FrameReader: exactly the frames addressed to the library / broadcast come back, in order, same class / bytes / ==)",
         "Frame.__eq__ is structural: equal iff same class, addressing, versions, message, data": "theorem about PyFrame.pyEq + correspondence (Python ==/!= equals that relation on generated pairs)",
     },
     assumptions=COMMON_ASSUME + [
